@@ -40,6 +40,10 @@ def main(argv=None) -> int:
     if not a.prop:
         ap.error("property id required")
     prop = a.prop.upper()
+    import stat
+    if not stat.S_ISCHR(os.stat("/dev/null").st_mode):
+        print("TOOL FAILURE: /dev/null is not a character device in this sandbox (tmux, subprocesses and redirections depend on it)")
+        return 2
     os.environ[common.GUARD] = "1"
     if prop in NEEDS_TTY and not os.environ.get("VERIF_IN_PTY"):
         return run_under_pty([sys.executable, "-m", "harness.main"] + (argv if argv is not None else sys.argv[1:]))
